@@ -1,4 +1,911 @@
 import LenaModel.Model.C03
 import LenaModel.Lemmas.C03
+/-! # C03 — property theorems: `Split.run` follows its documented block/branch schedule
+
+All statements are about the transcribed model `Split.runTrace` / `Split.run`
+(`Model/C03.lean`), for every list of branches (any length, any mix of the four kinds, any
+methods `Ops` over any state type), every flow (any length), every `bufsize ∈ ℕ⁺ ∪ {None}` and
+both values of `copy_buf`. -/
+
 namespace Lena.C03
+
+variable {σ α : Type}
+
+/-- `Split.__init__` accepts `bufsize = None` or a natural number `≥ 1` only (`splitInit`) -/
+def Split.Valid (s : Split σ α) : Prop := s.bufsize ≠ some 0
+
+/-! ## 1. the loops refine the declarative schedule -/
+
+/-- *"The flow is divided into subslices of bufsize.  Each subslice is processed by sequences in
+the order of their initializer list."*  The `while True` loop over buffers and the index loop
+with in-place deletion are two nested folds — over the blocks, and inside a block over the
+branches that are still active, in order — followed by the final pass.  The fuel given to the
+loops is never exhausted. -/
+theorem loop_refines_spec (s : Split σ α) (hv : s.Valid) (flow : List α) :
+    s.runTrace flow = s.runSpec flow := by
+  unfold Split.runTrace Split.runSpec
+  rw [outerLoop_eq_passes s.copyBuf s.bufsize hv (flow.length + 1) flow s.branches [] true (by omega)]
+  simp
+
+/-- THE MAIN STATEMENT of the property: the trace (hence the output) of `Split.run` is the
+concatenation, block by block and inside a block in branch order, of the contribution of each
+branch, followed after the last block by the final contributions in branch order — where the
+contribution of a branch is a function of that branch and of the blocks alone (`life`): no
+branch influences what another one receives or yields. -/
+theorem run_eq_schedule (s : Split σ α) (hv : s.Valid) (flow : List α) :
+    s.runTrace flow = s.schedule flow := by
+  rw [loop_refines_spec s hv, runSpec_eq_schedule]
+
+/-- the same for what `split.run(flow)` yields -/
+theorem run_outputs_eq_schedule (s : Split σ α) (hv : s.Valid) (flow : List α)
+    (hne : s.branches ≠ []) : s.run flow = outputs (s.schedule flow) := by
+  unfold Split.run
+  have : s.branches.isEmpty = false := by
+    cases hb : s.branches with
+    | nil => exact absurd hb hne
+    | cons b r => rfl
+  simp [this, run_eq_schedule s hv]
+
+/-- `copy_buf` does not change the schedule (values are not mutated by branches: assumption of
+the model) -/
+theorem copy_buf_irrelevant (brs : List (Branch σ α)) (bs : Option Nat) (hbs : bs ≠ some 0)
+    (flow : List α) :
+    ({ branches := brs, bufsize := bs, copyBuf := true } : Split σ α).runTrace flow =
+      ({ branches := brs, bufsize := bs, copyBuf := false } : Split σ α).runTrace flow := by
+  have h1 := loop_refines_spec ({ branches := brs, bufsize := bs, copyBuf := true } : Split σ α) hbs flow
+  have h2 := loop_refines_spec ({ branches := brs, bufsize := bs, copyBuf := false } : Split σ α) hbs flow
+  rw [h1, h2]
+  rfl
+
+/-- `assert flow_was_empty` (split.py:403) never fails: a Source is never left active after a
+non-empty flow -/
+theorem no_assert_fail (s : Split σ α) (hv : s.Valid) (flow : List α) :
+    ∀ e ∈ s.runTrace flow, ∃ i, e.branch = some i := by
+  intro e he
+  rw [run_eq_schedule s hv] at he
+  simp only [Split.schedule, List.mem_append, List.mem_flatMap] at he
+  rcases he with ⟨k, _, b, _, h⟩ | ⟨b, _, h⟩
+  · exact ⟨b.id, contribution_branch b _ k e h⟩
+  · exact ⟨b.id, finalContribution_branch b _ e h⟩
+
+/-! ## 2. the blocks -/
+
+/-- the blocks are consecutive pieces of the flow: nothing is lost, duplicated or reordered -/
+theorem blocks_flatten (bs : Option Nat) (hbs : bs ≠ some 0) :
+    ∀ (flow : List α), (blocks bs flow).flatten = flow := by
+  intro flow
+  generalize hn : flow.length = n
+  induction n using Nat.strongRecOn generalizing flow with
+  | _ n ih =>
+    cases flow with
+    | nil => simp
+    | cons x xs =>
+      obtain ⟨_, hbl⟩ := blocks_readBlock bs hbs (x :: xs) (by simp)
+      have hlen := readBlock_length bs hbs (x :: xs) (by simp)
+      rw [hbl, List.flatten_cons, ih _ (by omega) _ rfl]
+      cases bs with
+      | none => simp [readBlock]
+      | some b => simp [readBlock]
+
+/-- no block is empty, none is longer than `bufsize`, and all but the last have exactly
+`bufsize` values -/
+theorem blocks_sizes (b : Nat) (hb : 0 < b) :
+    ∀ (flow : List α), (∀ blk ∈ blocks (some b) flow, blk ≠ [] ∧ blk.length ≤ b) ∧
+      (∀ blk ∈ (blocks (some b) flow).dropLast, blk.length = b) := by
+  intro flow
+  generalize hn : flow.length = n
+  induction n using Nat.strongRecOn generalizing flow with
+  | _ n ih =>
+    cases flow with
+    | nil => simp
+    | cons x xs =>
+      rw [blocks_some_cons b hb]
+      have hlen : ((x :: xs).drop b).length < n := by
+        simp only [List.length_drop, List.length_cons] at hn ⊢; omega
+      obtain ⟨i1, i2⟩ := ih _ hlen _ rfl
+      refine ⟨?_, ?_⟩
+      · intro blk hblk
+        rcases List.mem_cons.mp hblk with rfl | h
+        · refine ⟨?_, by simp [List.length_take]; omega⟩
+          cases b with
+          | zero => omega
+          | succ b => simp
+        · exact i1 blk h
+      · intro blk hblk
+        cases hd : blocks (some b) ((x :: xs).drop b) with
+        | nil => simp [hd] at hblk
+        | cons c cs =>
+          rw [hd, List.dropLast_cons_cons] at hblk
+          rcases List.mem_cons.mp hblk with rfl | h
+          · have : (x :: xs).drop b ≠ [] := by
+              intro h0
+              rw [h0] at hd
+              simp at hd
+            have hl : b < (x :: xs).length := by
+              false_or_by_contra
+              exact this (List.drop_eq_nil_of_le (by omega))
+            simp only [List.length_take, List.length_cons] at hl ⊢; omega
+          · exact i2 blk (by rw [hd]; exact h)
+
+/-- `bufsize=None` materialises the whole flow: one block, unless the flow is empty -/
+theorem blocks_none (flow : List α) : blocks none flow = if flow = [] then [] else [flow] := by
+  cases flow <;> simp [blocks]
+
+/-- a `bufsize` that is at least the length of the (non-empty) flow gives one block: 1000 and
+`None` make no difference for short flows -/
+theorem blocks_large (b : Nat) (flow : List α) (h : flow.length ≤ b) (hne : flow ≠ []) :
+    blocks (some b) flow = [flow] := by
+  cases flow with
+  | nil => exact absurd rfl hne
+  | cons x xs =>
+    have hb : 0 < b := by simp at h; omega
+    rw [blocks_some_cons b hb, List.take_of_length_le h, List.drop_eq_nil_of_le h]
+    simp
+
+example : blocks (some 2) [1, 2, 3, 4, 5] = [[1, 2], [3, 4], [5]] := by decide
+example : blocks (none) [1, 2, 3] = [[1, 2, 3]] := by decide
+example : blocks (some 1000) ([] : List Nat) = [] := by decide
+
+/-! ## 3. projection: what happens to one branch -/
+
+/-- `mkBranches` numbers the branches by position, so the ids are distinct -/
+theorem mkBranches_ids (l : List (Kind × Ops σ α × σ)) (start : Nat) :
+    (mkBranches start l).map (·.id) = List.range' start l.length := by
+  induction l generalizing start with
+  | nil => rfl
+  | cons x r ih =>
+    obtain ⟨k, o, st⟩ := x
+    simp [mkBranches, ih, List.range'_succ]
+
+theorem mkBranches_nodup (l : List (Kind × Ops σ α × σ)) (start : Nat) :
+    ((mkBranches start l).map (·.id)).Nodup := by
+  rw [mkBranches_ids]
+  exact List.nodup_range'
+
+/-- PROJECTION: in a Split whose branches carry distinct tags, the events of branch `b` (its
+invocations and the values yielded on its behalf), in order, are its own life over the blocks
+of the flow — whatever the other branches are. -/
+theorem projection (s : Split σ α) (hv : s.Valid) (hnd : (s.branches.map (·.id)).Nodup)
+    (b : Branch σ α) (hb : b ∈ s.branches) (flow : List α) :
+    proj b.id (s.runTrace flow) = branchTrace b (blocks s.bufsize flow) := by
+  rw [run_eq_schedule s hv]
+  unfold Split.schedule branchTrace
+  generalize blocks s.bufsize flow = bl
+  simp only [proj_append, proj_flatMap_range]
+  congr 1
+  · have h : ∀ k, proj b.id (s.branches.flatMap fun b' => contribution b' bl k) = contribution b bl k :=
+      fun k => proj_flatMap_nodup _ s.branches (fun b' _ => contribution_branch b' bl k) hnd b hb
+    simp only [h]
+    unfold contribution
+    rw [← life_length bl (some b)]
+    exact flatMap_range_getD _
+  · exact proj_flatMap_nodup _ s.branches (fun b' _ => finalContribution_branch b' bl) hnd b hb
+
+/-- the life of a branch followed by its final contribution, from any starting point -/
+def traceF (fwe : Bool) (o : Option (Branch σ α)) (bl : List (List α)) : List (Ev α) :=
+  (life o bl).1.flatten ++ finalO fwe (life o bl).2
+
+theorem branchTrace_eq_traceF (b : Branch σ α) (bl : List (List α)) :
+    branchTrace b bl = traceF bl.isEmpty (some b) bl := rfl
+
+theorem traceF_nil (fwe : Bool) (o : Option (Branch σ α)) : traceF fwe o [] = finalO fwe o := by
+  simp [traceF, life]
+
+theorem traceF_cons (fwe : Bool) (o : Option (Branch σ α)) (blk : List α) (rest : List (List α)) :
+    traceF fwe o (blk :: rest) = (stepO blk o).1 ++ traceF fwe (stepO blk o).2 rest := by
+  simp [traceF, life, List.append_assoc]
+
+theorem traceF_none (fwe : Bool) (bl : List (List α)) :
+    traceF fwe (none : Option (Branch σ α)) bl = [] := by
+  induction bl with
+  | nil => rfl
+  | cons blk rest ih => rw [traceF_cons]; simpa [stepO] using ih
+
+/-! ### a Source -/
+
+/-- *"If a sequence is a Source, it doesn't accept the incoming flow, but produces its own
+complete flow and becomes inactive (is not called any more)."*  For every flow, empty or not,
+and every block structure: exactly one call, then its complete output. -/
+theorem branchTrace_source (b : Branch σ α) (hk : b.kind = .source) (bl : List (List α)) :
+    branchTrace b bl = .call b.id :: outs b.id (b.ops.call b.st).1 := by
+  rw [branchTrace_eq_traceF]
+  cases bl with
+  | nil => simp [traceF_nil, finalO, finalOne, hk]
+  | cons blk rest => simp [traceF_cons, stepO, stepBranch, hk, traceF_none]
+
+/-- … *the first time it is reached*: in the first block (in the final pass iff there is no block) -/
+theorem source_first_block (b : Branch σ α) (hk : b.kind = .source) (blk : List α) (rest : List (List α)) :
+    contribution b (blk :: rest) 0 = .call b.id :: outs b.id (b.ops.call b.st).1 ∧
+    (∀ k, contribution b (blk :: rest) (k + 1) = []) ∧
+    finalContribution b (blk :: rest) = [] := by
+  refine ⟨by simp [contribution, life, stepO, stepBranch, hk], ?_, ?_⟩
+  · intro k
+    simp only [contribution, life, stepO, stepBranch, hk, life_none, List.getElem?_cons_succ,
+      List.getElem?_map]
+    cases rest[k]? <;> rfl
+  · simp [finalContribution, life, stepO, stepBranch, hk, life_none, finalO]
+
+/-! ### a plain Sequence -/
+
+/-- `run` on each block in turn (the object keeps its state between blocks) -/
+def seqTrace (i : Nat) (ops : Ops σ α) : σ → List (List α) → List (Ev α)
+  | _, [] => []
+  | s, blk :: rest => .run i blk :: outs i (ops.run s blk).1 ++ seqTrace i ops (ops.run s blk).2 rest
+
+theorem traceF_sequence (bl : List (List α)) :
+    ∀ (b : Branch σ α), b.kind = .sequence → traceF false (some b) bl = seqTrace b.id b.ops b.st bl := by
+  induction bl with
+  | nil => intro b hk; simp [traceF_nil, finalO, finalOne, hk, seqTrace]
+  | cons blk rest ih =>
+    intro b hk
+    rw [traceF_cons]
+    simp only [stepO, stepBranch, hk, seqTrace]
+    rw [ih _ rfl]
+
+/-- *"A Sequence is called with run(buffer) instead of the whole flow.  The results are yielded
+for each buffer (and also if the flow was empty)."* -/
+theorem branchTrace_sequence (b : Branch σ α) (hk : b.kind = .sequence) (bl : List (List α)) :
+    branchTrace b bl =
+      if bl = [] then .run b.id [] :: outs b.id (b.ops.run b.st []).1
+      else seqTrace b.id b.ops b.st bl := by
+  rw [branchTrace_eq_traceF]
+  cases bl with
+  | nil => simp [traceF_nil, finalO, finalOne, hk]
+  | cons blk rest => simpa using traceF_sequence (blk :: rest) b hk
+
+/-! ### a fill/compute branch -/
+
+theorem fillBuf_append (i : Nat) (ops : Ops σ α) (ys : List α) :
+    ∀ (s : σ) (xs : List α), fillBuf i ops s (xs ++ ys) =
+      if (fillBuf i ops s xs).2.2 then fillBuf i ops s xs
+      else ((fillBuf i ops s xs).1 ++ (fillBuf i ops (fillBuf i ops s xs).2.1 ys).1,
+            (fillBuf i ops (fillBuf i ops s xs).2.1 ys).2) := by
+  intro s xs
+  induction xs generalizing s with
+  | nil => simp [fillBuf]
+  | cons x xs ih =>
+    obtain ⟨s', st, hf⟩ : ∃ s' st, ops.fill s x = (s', st) := ⟨_, _, rfl⟩
+    cases st with
+    | true => simp [List.cons_append, fillBuf_cons_stop i ops s s' x _ hf]
+    | false =>
+      rw [List.cons_append, fillBuf_cons_ok i ops s s' x _ hf, fillBuf_cons_ok i ops s s' x _ hf, ih s']
+      split <;> simp_all
+
+/-- fill with every value of the flow until `LenaStopFill`, then `compute()` once -/
+def fcTrace (b : Branch σ α) (xs : List α) : List (Ev α) :=
+  (fillBuf b.id b.ops b.st xs).1 ++
+    .compute b.id :: outs b.id (b.ops.compute (fillBuf b.id b.ops b.st xs).2.1).1
+
+theorem traceF_fillCompute (fwe : Bool) (bl : List (List α)) :
+    ∀ (b : Branch σ α), b.kind = .fillCompute → traceF fwe (some b) bl = fcTrace b bl.flatten := by
+  induction bl with
+  | nil => intro b hk; simp [traceF_nil, finalO, finalOne, hk, fcTrace, fillBuf]
+  | cons blk rest ih =>
+    intro b hk
+    rw [traceF_cons]
+    simp only [stepO, stepBranch, hk, List.flatten_cons, fcTrace, fillBuf_append]
+    by_cases hst : (fillBuf b.id b.ops b.st blk).2.2 = true
+    · simp [hst, traceF_none]
+    · simp only [hst, Bool.false_eq_true, ↓reduceIte]
+      rw [ih _ rfl]
+      simp [fcTrace, List.append_assoc]
+
+/-- *"A FillComputeSeq is filled with values from each buffer, but yields values from compute
+only after the whole flow is finished"* — or at the block where it signalled `LenaStopFill`.
+Whatever the blocks are, the branch sees: the values of the whole flow one by one until it
+signals `LenaStopFill` (if it does), then one `compute()`. -/
+theorem branchTrace_fillCompute (b : Branch σ α) (hk : b.kind = .fillCompute) (bl : List (List α)) :
+    branchTrace b bl = fcTrace b bl.flatten := by
+  rw [branchTrace_eq_traceF]
+  exact traceF_fillCompute _ bl b hk
+
+/-! ### a fill/request branch -/
+
+/-- block by block: fill until `LenaStopFill`, then `request()`; after a stop nothing more -/
+def frTrace (i : Nat) (ops : Ops σ α) : σ → List (List α) → List (Ev α)
+  | _, [] => []
+  | s, blk :: rest =>
+    (fillBuf i ops s blk).1 ++
+      .request i :: outs i (ops.request (fillBuf i ops s blk).2.1).1 ++
+        (if (fillBuf i ops s blk).2.2 then []
+         else frTrace i ops (ops.request (fillBuf i ops s blk).2.1).2 rest)
+
+theorem traceF_fillRequest (bl : List (List α)) :
+    ∀ (b : Branch σ α), b.kind = .fillRequest → traceF false (some b) bl = frTrace b.id b.ops b.st bl := by
+  induction bl with
+  | nil => intro b hk; simp [traceF_nil, finalO, finalOne, hk, frTrace]
+  | cons blk rest ih =>
+    intro b hk
+    rw [traceF_cons]
+    simp only [stepO, stepBranch, hk, frTrace]
+    by_cases hst : (fillBuf b.id b.ops b.st blk).2.2 = true
+    · simp [hst, traceF_none]
+    · simp only [hst, Bool.false_eq_true, ↓reduceIte]
+      rw [ih _ rfl]
+
+/-- *"A FillRequestSeq is filled with the buffer contents.  After the buffer is finished, it
+yields all values from request()."*  On an empty flow: one `request()`. -/
+theorem branchTrace_fillRequest (b : Branch σ α) (hk : b.kind = .fillRequest) (bl : List (List α)) :
+    branchTrace b bl =
+      if bl = [] then .request b.id :: outs b.id (b.ops.request b.st).1
+      else frTrace b.id b.ops b.st bl := by
+  rw [branchTrace_eq_traceF]
+  cases bl with
+  | nil => simp [traceF_nil, finalO, finalOne, hk]
+  | cons blk rest => simpa using traceF_fillRequest (blk :: rest) b hk
+
+/-! ## 4. LenaStopFill: finalised once, then dropped -/
+
+/-- a `fill` that raised `LenaStopFill` -/
+def Ev.isStop : Ev α → Bool
+  | .fill _ _ true => true
+  | _ => false
+
+/-- no `LenaStopFill` in this part of the trace -/
+def NoStop (l : List (Ev α)) : Prop := ∀ e ∈ l, e.isStop = false
+
+theorem NoStop.append {l₁ l₂ : List (Ev α)} (h₁ : NoStop l₁) (h₂ : NoStop l₂) : NoStop (l₁ ++ l₂) := by
+  intro e he
+  rcases List.mem_append.mp he with h | h
+  · exact h₁ e h
+  · exact h₂ e h
+
+theorem noStop_outs (i : Nat) (vals : List α) : NoStop (outs i vals) := by
+  intro e he
+  simp only [outs, List.mem_map] at he
+  obtain ⟨v, _, rfl⟩ := he
+  rfl
+
+theorem noStop_cons {e : Ev α} {l : List (Ev α)} (he : e.isStop = false) (hl : NoStop l) : NoStop (e :: l) := by
+  intro e' h
+  rcases List.mem_cons.mp h with rfl | h
+  · exact he
+  · exact hl e' h
+
+/-- the fills of one buffer: no stop at all, or a run of accepted values ending with the one
+that raised -/
+theorem fillBuf_shape (i : Nat) (ops : Ops σ α) :
+    ∀ (s : σ) (xs : List α),
+      ((fillBuf i ops s xs).2.2 = false ∧ NoStop (fillBuf i ops s xs).1) ∨
+      ((fillBuf i ops s xs).2.2 = true ∧ ∃ a x, NoStop a ∧ (fillBuf i ops s xs).1 = a ++ [.fill i x true]) := by
+  intro s xs
+  induction xs generalizing s with
+  | nil => left; exact ⟨rfl, by intro e he; simp [fillBuf] at he⟩
+  | cons x xs ih =>
+    obtain ⟨s', st, hf⟩ : ∃ s' st, ops.fill s x = (s', st) := ⟨_, _, rfl⟩
+    cases st with
+    | true =>
+      right
+      rw [fillBuf_cons_stop i ops s s' x _ hf]
+      exact ⟨rfl, [], x, by intro e he; simp at he, rfl⟩
+    | false =>
+      rw [fillBuf_cons_ok i ops s s' x _ hf]
+      rcases ih s' with ⟨h1, h2⟩ | ⟨h1, a, y, ha, h2⟩
+      · left; exact ⟨h1, noStop_cons rfl h2⟩
+      · right
+        refine ⟨h1, .fill i x false :: a, y, noStop_cons rfl ha, ?_⟩
+        simp [h2]
+
+/-- a stopping fill after a stop-free prefix is found in the rest -/
+theorem nostop_prefix_split {A T pre post : List (Ev α)} {e : Ev α} (hA : NoStop A)
+    (he : e.isStop = true) (h : A ++ T = pre ++ e :: post) : ∃ pre', pre = A ++ pre' ∧ T = pre' ++ e :: post := by
+  induction A generalizing pre with
+  | nil => exact ⟨pre, rfl, h⟩
+  | cons a0 A' ih =>
+    cases pre with
+    | nil =>
+      simp only [List.cons_append, List.nil_append, List.cons.injEq] at h
+      have := hA a0 (List.mem_cons_self ..)
+      rw [h.1, he] at this
+      cases this
+    | cons p pre'' =>
+      simp only [List.cons_append, List.cons.injEq] at h
+      obtain ⟨pre', h1, h2⟩ := ih (fun e he => hA e (List.mem_cons_of_mem _ he)) h.2
+      exact ⟨pre', by rw [h.1, h1]; rfl, h2⟩
+
+/-- the only stopping fill of `a ++ e :: c` (with `a`, `c` stop-free) is `e` -/
+theorem stop_split_unique {a c pre post : List (Ev α)} {e e' : Ev α} (ha : NoStop a) (hc : NoStop c)
+    (he' : e'.isStop = true) (h : a ++ e :: c = pre ++ e' :: post) : post = c := by
+  obtain ⟨pre', _, h2⟩ := nostop_prefix_split ha he' h
+  cases pre' with
+  | nil => simp only [List.nil_append, List.cons.injEq] at h2; exact h2.2.symm
+  | cons p q =>
+    simp only [List.cons_append, List.cons.injEq] at h2
+    have := hc e' (by rw [h2.2]; simp)
+    rw [he'] at this
+    cases this
+
+theorem frTrace_stop (i : Nat) (ops : Ops σ α) (bl : List (List α)) :
+    ∀ (s : σ) (pre post : List (Ev α)) (e : Ev α), e.isStop = true →
+      frTrace i ops s bl = pre ++ e :: post → ∃ vals, post = .request i :: outs i vals := by
+  induction bl with
+  | nil => intro s pre post e _ h; cases pre <;> simp [frTrace] at h
+  | cons blk rest ih =>
+    intro s pre post e he h
+    simp only [frTrace] at h
+    rcases fillBuf_shape i ops s blk with ⟨h1, h2⟩ | ⟨h1, a, y, ha, h2⟩
+    · simp only [h1, Bool.false_eq_true, ↓reduceIte] at h
+      have hA : NoStop ((fillBuf i ops s blk).1 ++ .request i :: outs i (ops.request (fillBuf i ops s blk).2.1).1) :=
+        h2.append (noStop_cons rfl (noStop_outs _ _))
+      obtain ⟨pre', _, hT⟩ := nostop_prefix_split hA he h
+      exact ih _ pre' post e he hT
+    · simp only [h1, ↓reduceIte, h2, List.append_nil, List.append_assoc, List.cons_append,
+        List.nil_append] at h
+      exact ⟨_, stop_split_unique ha (noStop_cons rfl (noStop_outs _ _)) he h⟩
+
+/-- the finalising call of a fill/compute or fill/request branch -/
+def finaliser (b : Branch σ α) : Ev α :=
+  match b.kind with
+  | .fillCompute => .compute b.id
+  | _ => .request b.id
+
+/-- *"a branch that signals LenaStopFill is finalised and dropped"*: whatever happened before,
+after the `fill` that raised `LenaStopFill` the branch receives exactly one more call — its
+`compute()` (fill/compute) or `request()` (fill/request) — whose results are yielded, and then
+nothing: no further value, no second finalisation, in this block or any later one or the final
+pass. -/
+theorem stopfill_dropped_life (b : Branch σ α) (hk : b.kind = .fillCompute ∨ b.kind = .fillRequest)
+    (bl : List (List α)) (pre post : List (Ev α)) (e : Ev α) (he : e.isStop = true)
+    (h : branchTrace b bl = pre ++ e :: post) : ∃ vals, post = finaliser b :: outs b.id vals := by
+  rcases hk with hk | hk
+  · rw [branchTrace_fillCompute b hk, fcTrace] at h
+    simp only [finaliser, hk]
+    rcases fillBuf_shape b.id b.ops b.st bl.flatten with ⟨_, h2⟩ | ⟨_, a, y, ha, h2⟩
+    · have hall : NoStop (pre ++ e :: post) := by
+        rw [← h]; exact h2.append (noStop_cons rfl (noStop_outs _ _))
+      have := hall e (by simp)
+      rw [he] at this
+      cases this
+    · rw [h2, List.append_assoc] at h
+      exact ⟨_, stop_split_unique ha (noStop_cons rfl (noStop_outs _ _)) he h⟩
+  · rw [branchTrace_fillRequest b hk] at h
+    simp only [finaliser, hk]
+    split at h
+    · have hall : NoStop (pre ++ e :: post) := by
+        rw [← h]; exact noStop_cons rfl (noStop_outs _ _)
+      have := hall e (by simp)
+      rw [he] at this
+      cases this
+    · exact frTrace_stop _ _ bl _ pre post e he h
+
+/-- the same, read off the trace of a whole `Split.run` -/
+theorem stopfill_dropped (s : Split σ α) (hv : s.Valid) (hnd : (s.branches.map (·.id)).Nodup)
+    (b : Branch σ α) (hb : b ∈ s.branches) (hk : b.kind = .fillCompute ∨ b.kind = .fillRequest)
+    (flow : List α) (pre post : List (Ev α)) (x : α)
+    (h : proj b.id (s.runTrace flow) = pre ++ .fill b.id x true :: post) :
+    ∃ vals, post = finaliser b :: outs b.id vals := by
+  rw [projection s hv hnd b hb] at h
+  exact stopfill_dropped_life b hk _ pre post _ rfl h
+
+/-! ## 5. the empty flow -/
+
+/-- the one call a branch receives when the flow is empty -/
+def invocationOf (b : Branch σ α) : Ev α :=
+  match b.kind with
+  | .source => .call b.id
+  | .fillCompute => .compute b.id
+  | .fillRequest => .request b.id
+  | .sequence => .run b.id []
+
+/-- … and what it yields -/
+def resultOf (b : Branch σ α) : List α :=
+  match b.kind with
+  | .source => (b.ops.call b.st).1
+  | .fillCompute => (b.ops.compute b.st).1
+  | .fillRequest => (b.ops.request b.st).1
+  | .sequence => (b.ops.run b.st []).1
+
+/-- *"If the flow was empty, each call, compute, request or run is called nevertheless"*:
+on an empty flow the trace is, branch by branch in branch order, exactly one invocation
+followed by its results (for every `bufsize`, every `copy_buf`). -/
+theorem empty_flow_once (s : Split σ α) :
+    s.runTrace [] = s.branches.flatMap (fun b => invocationOf b :: outs b.id (resultOf b)) := by
+  unfold Split.runTrace
+  simp only [outerLoop, readBlock_nil, List.isEmpty_nil, ↓reduceIte,
+    List.nil_append]
+  rw [finalPass_eq_flatMap true s.branches (Or.inl rfl)]
+  congr 1
+  funext b
+  unfold finalOne invocationOf resultOf
+  cases b.kind <;> rfl
+
+theorem invocationOf_isInvocation (b : Branch σ α) : (invocationOf b).isInvocation = true := by
+  unfold invocationOf
+  cases b.kind <;> rfl
+
+/-- every branch is invoked exactly once on an empty flow -/
+theorem empty_flow_invocations (s : Split σ α) (hnd : (s.branches.map (·.id)).Nodup)
+    (b : Branch σ α) (hb : b ∈ s.branches) : invocations b.id (s.runTrace []) = [invocationOf b] := by
+  rw [empty_flow_once]
+  unfold invocations
+  rw [proj_flatMap_nodup (fun b => invocationOf b :: outs b.id (resultOf b)) s.branches ?_ hnd b hb]
+  · simp only [List.filter_cons, invocationOf_isInvocation, ↓reduceIte, List.cons.injEq, true_and]
+    rw [List.filter_eq_nil_iff]
+    intro e he
+    simp only [outs, List.mem_map] at he
+    obtain ⟨v, _, rfl⟩ := he
+    simp [Ev.isInvocation]
+  · intro c _ e he
+    rcases List.mem_cons.mp he with rfl | he
+    · unfold invocationOf; cases c.kind <;> rfl
+    · exact outs_branch _ _ e he
+
+/-! ## 6. consequences: independence of `bufsize`, the empty Split -/
+
+/-- in a `Split.run`, a fill/compute branch sees the values of the whole flow one by one until it
+signals `LenaStopFill`, then one `compute()` — the blocks do not appear in the statement -/
+theorem projection_fillCompute (s : Split σ α) (hv : s.Valid) (hnd : (s.branches.map (·.id)).Nodup)
+    (b : Branch σ α) (hb : b ∈ s.branches) (hk : b.kind = .fillCompute) (flow : List α) :
+    proj b.id (s.runTrace flow) = fcTrace b flow := by
+  rw [projection s hv hnd b hb, branchTrace_fillCompute b hk, blocks_flatten s.bufsize hv]
+
+/-- *"the results of fill/compute branches … are independent of bufsize"*: for any two
+`bufsize ∈ ℕ⁺ ∪ {None}` (and any `copy_buf`), everything that happens to a fill/compute branch —
+the values it is filled with, its one `compute()`, the results yielded for it — is the same -/
+theorem bufsize_independent_fc (brs : List (Branch σ α)) (hnd : (brs.map (·.id)).Nodup)
+    (bs₁ bs₂ : Option Nat) (h₁ : bs₁ ≠ some 0) (h₂ : bs₂ ≠ some 0) (cb₁ cb₂ : Bool)
+    (b : Branch σ α) (hb : b ∈ brs) (hk : b.kind = .fillCompute) (flow : List α) :
+    proj b.id (({ branches := brs, bufsize := bs₁, copyBuf := cb₁ } : Split σ α).runTrace flow) =
+      proj b.id (({ branches := brs, bufsize := bs₂, copyBuf := cb₂ } : Split σ α).runTrace flow) := by
+  have e₁ := projection_fillCompute ({ branches := brs, bufsize := bs₁, copyBuf := cb₁ } : Split σ α) h₁ hnd b hb hk flow
+  have e₂ := projection_fillCompute ({ branches := brs, bufsize := bs₂, copyBuf := cb₂ } : Split σ α) h₂ hnd b hb hk flow
+  rw [e₁, e₂]
+
+theorem outputs_append (l₁ l₂ : List (Ev α)) : outputs (l₁ ++ l₂) = outputs l₁ ++ outputs l₂ := by
+  induction l₁ with
+  | nil => rfl
+  | cons e r ih => cases e <;> simp [outputs, ih]
+
+theorem outputs_outs (i : Nat) (vals : List α) : outputs (outs i vals) = vals := by
+  induction vals with
+  | nil => rfl
+  | cons v r ih => simp only [outs, List.map_cons, outputs] at ih ⊢; rw [ih]
+
+/-- a `run` that works value by value (possibly with a state): running a concatenation is
+running the parts one after the other, and running nothing yields nothing.  Every map, filter
+and flat-map is of this kind (`streaming_of_perValue`). -/
+structure Streaming (ops : Ops σ α) : Prop where
+  run_nil : ∀ s, ops.run s [] = ([], s)
+  run_append : ∀ s xs ys, ops.run s (xs ++ ys) =
+    ((ops.run s xs).1 ++ (ops.run (ops.run s xs).2 ys).1, (ops.run (ops.run s xs).2 ys).2)
+
+theorem streaming_of_perValue (ops : Ops σ α) (f : α → List α)
+    (h : ∀ s xs, ops.run s xs = (xs.flatMap f, s)) : Streaming ops :=
+  ⟨fun s => by simp [h], fun s xs ys => by simp [h]⟩
+
+theorem outputs_seqTrace (i : Nat) (ops : Ops σ α) (hs : Streaming ops) (bl : List (List α)) :
+    ∀ s, outputs (seqTrace i ops s bl) = (ops.run s bl.flatten).1 := by
+  induction bl with
+  | nil => intro s; simp [seqTrace, outputs, hs.run_nil]
+  | cons blk rest ih =>
+    intro s
+    simp only [seqTrace, outputs, List.flatten_cons, hs.run_append, outputs_append, outputs_outs, ih]
+
+/-- *"the results … of per-value (map/filter) branches are independent of bufsize"*: the values
+yielded for a plain Sequence whose `run` is streaming are its `run` on the whole flow, for every
+`bufsize ∈ ℕ⁺ ∪ {None}` -/
+theorem projection_per_value (s : Split σ α) (hv : s.Valid) (hnd : (s.branches.map (·.id)).Nodup)
+    (b : Branch σ α) (hb : b ∈ s.branches) (hk : b.kind = .sequence) (hs : Streaming b.ops)
+    (flow : List α) : outputsOf b.id (s.runTrace flow) = (b.ops.run b.st flow).1 := by
+  unfold outputsOf
+  rw [projection s hv hnd b hb, branchTrace_sequence b hk]
+  split
+  · rename_i h
+    have : flow = [] := by rw [← blocks_flatten s.bufsize hv flow, h]; rfl
+    subst this
+    simp [outputs, outputs_outs]
+  · rw [outputs_seqTrace _ _ hs, blocks_flatten s.bufsize hv]
+
+theorem bufsize_independent_per_value (brs : List (Branch σ α)) (hnd : (brs.map (·.id)).Nodup)
+    (bs₁ bs₂ : Option Nat) (h₁ : bs₁ ≠ some 0) (h₂ : bs₂ ≠ some 0) (cb₁ cb₂ : Bool)
+    (b : Branch σ α) (hb : b ∈ brs) (hk : b.kind = .sequence) (hs : Streaming b.ops) (flow : List α) :
+    outputsOf b.id (({ branches := brs, bufsize := bs₁, copyBuf := cb₁ } : Split σ α).runTrace flow) =
+      outputsOf b.id (({ branches := brs, bufsize := bs₂, copyBuf := cb₂ } : Split σ α).runTrace flow) := by
+  have e₁ := projection_per_value ({ branches := brs, bufsize := bs₁, copyBuf := cb₁ } : Split σ α) h₁ hnd b hb hk hs flow
+  have e₂ := projection_per_value ({ branches := brs, bufsize := bs₂, copyBuf := cb₂ } : Split σ α) h₂ hnd b hb hk hs flow
+  rw [e₁, e₂]
+
+/-- *"an empty Split is the identity"* -/
+theorem empty_split_id (s : Split σ α) (h : s.branches = []) (flow : List α) : s.run flow = flow := by
+  unfold Split.run
+  simp only [h, List.isEmpty_nil, ↓reduceIte]
+  induction flow with
+  | nil => rfl
+  | cons v r ih => simp [emptyRun, ih]
+
+/-! ## 7. a Split whose branches share one type offers that type's methods -/
+
+theorem allKind_iff (k : Kind) (kinds : List Kind) :
+    allKind k kinds = true ↔ kinds ≠ [] ∧ ∀ k' ∈ kinds, k' = k := by
+  unfold allKind
+  cases kinds with
+  | nil => simp
+  | cons a r => simp
+
+/-- which methods exist: `fill`+`compute` iff all branches are fill/compute, `fill`+`request` iff
+all are fill/request, `__call__` works iff all are Sources (at least one branch in each case);
+`run` is the identity `_empty_run` iff there is no branch -/
+theorem methods_available (kinds : List Kind) :
+    ((methodsOf kinds).compute = true ↔ kinds ≠ [] ∧ ∀ k ∈ kinds, k = .fillCompute) ∧
+    ((methodsOf kinds).request = true ↔ kinds ≠ [] ∧ ∀ k ∈ kinds, k = .fillRequest) ∧
+    ((methodsOf kinds).fill = true ↔ (methodsOf kinds).compute = true ∨ (methodsOf kinds).request = true) ∧
+    ((methodsOf kinds).callable = true ↔ kinds ≠ [] ∧ ∀ k ∈ kinds, k = .source) ∧
+    ((methodsOf kinds).emptyRun = true ↔ kinds = []) := by
+  refine ⟨allKind_iff _ _, allKind_iff _ _, ?_, allKind_iff _ _, ?_⟩
+  · simp [methodsOf]
+  · simp [methodsOf]
+
+/-- `__call__` raises `LenaAttributeError` unless every branch is a Source -/
+theorem call_available (s : Split σ α) :
+    (s.call = .error .lenaAttributeError ∨ s.call = .ok (splitCallLoop s.branches)) ∧
+    (s.call = .ok (splitCallLoop s.branches) ↔ s.branches ≠ [] ∧ ∀ b ∈ s.branches, b.kind = .source) := by
+  unfold Split.call
+  have h := (methods_available (s.branches.map (·.kind))).2.2.2.1
+  by_cases hc : (methodsOf (s.branches.map (·.kind))).callable = true
+  · simp only [hc, ↓reduceIte, true_iff, or_true, true_and]
+    have := h.mp hc
+    simpa using this
+  · simp only [hc, Bool.false_eq_true, ↓reduceIte, true_or, true_and, reduceCtorEq, false_iff]
+    intro hh
+    apply hc
+    apply h.mpr
+    simpa using hh
+
+theorem outputs_flatMap {β : Type} (l : List β) (f : β → List (Ev α)) :
+    outputs (l.flatMap f) = l.flatMap (fun b => outputs (f b)) := by
+  induction l with
+  | nil => rfl
+  | cons b r ih => simp [outputs_append, ih]
+
+theorem passes_nil_act (bl : List (List α)) : passes bl ([] : List (Branch σ α)) = ([], []) := by
+  induction bl with
+  | nil => rfl
+  | cons blk rest ih => simp [passes, foldB, ih]
+
+theorem splitCallLoop_fst (brs : List (Branch σ α)) :
+    (splitCallLoop brs).1 = brs.flatMap (fun b => (b.ops.call b.st).1) := by
+  induction brs with
+  | nil => rfl
+  | cons b r ih => simp [splitCallLoop, ih]
+
+theorem splitCompute_fst (brs : List (Branch σ α)) :
+    (splitCompute brs).1 = brs.flatMap (fun b => (b.ops.compute b.st).1) := by
+  induction brs with
+  | nil => rfl
+  | cons b r ih => simp [splitCompute, ih]
+
+/-- ALL SOURCES: `split.run(flow)` yields, for every flow (empty or not) and every `bufsize`,
+what `split()` yields — the complete outputs of the Sources one after the other
+(*"bufsize makes no difference, because these are Sources"*) -/
+theorem common_type_source (s : Split σ α) (hv : s.Valid)
+    (hall : ∀ b ∈ s.branches, b.kind = .source) (flow : List α) :
+    outputs (s.runTrace flow) = (splitCallLoop s.branches).1 := by
+  rw [loop_refines_spec s hv, splitCallLoop_fst]
+  unfold Split.runSpec
+  have key : outputs (s.branches.flatMap (fun b => Ev.call b.id :: outs b.id (b.ops.call b.st).1)) =
+      s.branches.flatMap (fun b => (b.ops.call b.st).1) := by
+    rw [outputs_flatMap]
+    congr 1
+    funext b
+    simp [outputs, outputs_outs]
+  cases hbl : blocks s.bufsize flow with
+  | nil =>
+    simp only [passes, List.nil_append, List.isEmpty_nil]
+    rw [finalPass_eq_flatMap true _ (Or.inl rfl), ← key]
+    congr 1
+    apply flatMap_congr'
+    intro b hb
+    simp [finalOne, hall b hb]
+  | cons blk rest =>
+    have h1 : (foldB (stepBranch blk) s.branches).1 =
+        s.branches.flatMap (fun b => Ev.call b.id :: outs b.id (b.ops.call b.st).1) := by
+      rw [foldB_fst]
+      apply flatMap_congr'
+      intro b hb
+      simp [stepBranch, hall b hb]
+    have h2 : (foldB (stepBranch blk) s.branches).2 = [] := by
+      rw [foldB_snd, List.filterMap_eq_nil_iff]
+      intro b hb
+      simp [stepBranch, hall b hb]
+    simp only [passes, h1, h2, passes_nil_act, List.append_nil, finalPass, key]
+
+/-! ### fill / compute -/
+
+theorem fillBuf_snd_id (i j : Nat) (ops : Ops σ α) :
+    ∀ (s : σ) (xs : List α), (fillBuf i ops s xs).2 = (fillBuf j ops s xs).2 := by
+  intro s xs
+  induction xs generalizing s with
+  | nil => rfl
+  | cons x xs ih =>
+    obtain ⟨s', st, hf⟩ : ∃ s' st, ops.fill s x = (s', st) := ⟨_, _, rfl⟩
+    cases st with
+    | true => rw [fillBuf_cons_stop i ops s s' x _ hf, fillBuf_cons_stop j ops s s' x _ hf]
+    | false => rw [fillBuf_cons_ok i ops s s' x _ hf, fillBuf_cons_ok j ops s s' x _ hf]; exact ih s'
+
+/-- the object after it has been filled with `xs` -/
+def filled (b : Branch σ α) (xs : List α) : Branch σ α :=
+  { b with st := (fillBuf b.id b.ops b.st xs).2.1 }
+
+/-- branch `b` accepts every value of `xs` (no `LenaStopFill`) -/
+def Accepts (b : Branch σ α) (xs : List α) : Prop := (fillBuf b.id b.ops b.st xs).2.2 = false
+
+theorem accepts_cons (b : Branch σ α) (x : α) (xs : List α) :
+    Accepts b (x :: xs) ↔ (b.ops.fill b.st x).2 = false ∧ Accepts (filled b [x]) xs := by
+  unfold Accepts filled
+  obtain ⟨s', st, hf⟩ : ∃ s' st, b.ops.fill b.st x = (s', st) := ⟨_, _, rfl⟩
+  cases st with
+  | true => rw [fillBuf_cons_stop _ _ _ s' _ _ hf]; simp [hf]
+  | false =>
+    rw [fillBuf_cons_ok _ _ _ s' _ _ hf, fillBuf_cons_ok _ _ _ s' _ _ hf]
+    simp [hf, fillBuf]
+
+theorem filled_cons (b : Branch σ α) (x : α) (xs : List α) (h : (b.ops.fill b.st x).2 = false) :
+    filled b (x :: xs) = filled (filled b [x]) xs := by
+  unfold filled
+  obtain ⟨s', st, hf⟩ : ∃ s' st, b.ops.fill b.st x = (s', st) := ⟨_, _, rfl⟩
+  cases st with
+  | true => simp [hf] at h
+  | false =>
+    rw [fillBuf_cons_ok _ _ _ s' _ _ hf, fillBuf_cons_ok _ _ _ s' _ _ hf]
+    simp [fillBuf]
+
+theorem filled_one (b : Branch σ α) (x : α) (h : (b.ops.fill b.st x).2 = false) :
+    filled b [x] = { b with st := (b.ops.fill b.st x).1 } := by
+  unfold filled
+  obtain ⟨s', st, hf⟩ : ∃ s' st, b.ops.fill b.st x = (s', st) := ⟨_, _, rfl⟩
+  cases st with
+  | true => simp [hf] at h
+  | false =>
+    rw [fillBuf_cons_ok _ _ _ s' _ _ hf]
+    simp [fillBuf, hf]
+
+theorem filled_nil (b : Branch σ α) : filled b [] = b := rfl
+
+theorem accepts_append (b : Branch σ α) (xs ys : List α) :
+    Accepts b (xs ++ ys) ↔ Accepts b xs ∧ Accepts (filled b xs) ys := by
+  unfold Accepts filled
+  rw [fillBuf_append]
+  by_cases h : (fillBuf b.id b.ops b.st xs).2.2 = true
+  · simp [h]
+  · simp [h]
+
+theorem filled_append (b : Branch σ α) (xs ys : List α) (h : Accepts b xs) :
+    filled b (xs ++ ys) = filled (filled b xs) ys := by
+  unfold Accepts at h
+  unfold filled
+  rw [fillBuf_append]
+  simp [h]
+
+/-- `Split._fill(x)` when every branch accepts `x` -/
+theorem splitFill_iff (x : α) (brs : List (Branch σ α)) :
+    ((splitFill x brs).2 = false ↔ ∀ b ∈ brs, (b.ops.fill b.st x).2 = false) ∧
+    ((splitFill x brs).2 = false → (splitFill x brs).1 = brs.map (fun b => filled b [x])) := by
+  induction brs with
+  | nil => simp [splitFill]
+  | cons b r ih =>
+    obtain ⟨s', st, hf⟩ : ∃ s' st, b.ops.fill b.st x = (s', st) := ⟨_, _, rfl⟩
+    cases st with
+    | true => simp [splitFill, hf]
+    | false =>
+      have hb : filled b [x] = { b with st := s' } := by rw [filled_one b x (by simp [hf]), hf]
+      simp only [splitFill, hf, List.mem_cons, forall_eq_or_imp, true_and, List.map_cons, hb]
+      refine ⟨ih.1, fun h => ?_⟩
+      rw [ih.2 h]
+
+/-- filling value by value through the common `fill` meets no `LenaStopFill` iff every branch
+accepts the whole flow; then every branch has been filled with the whole flow -/
+theorem splitFillAll_iff (xs : List α) :
+    ∀ (brs : List (Branch σ α)),
+      ((splitFillAll brs xs).2 = false ↔ ∀ b ∈ brs, Accepts b xs) ∧
+      ((splitFillAll brs xs).2 = false → (splitFillAll brs xs).1 = brs.map (fun b => filled b xs)) := by
+  induction xs with
+  | nil => intro brs; simp [splitFillAll, Accepts, fillBuf, filled]
+  | cons x xs ih =>
+    intro brs
+    obtain ⟨f1, f2⟩ := splitFill_iff x brs
+    unfold splitFillAll
+    cases hs : splitFill x brs with
+    | mk brs' st =>
+      cases st with
+      | true =>
+        simp only [Bool.true_eq_false, false_iff, false_imp_iff, and_true]
+        intro hall
+        have : (splitFill x brs).2 = false := f1.mpr (fun b hb => ((accepts_cons b x xs).mp (hall b hb)).1)
+        rw [hs] at this
+        cases this
+      | false =>
+        have hfalse : (splitFill x brs).2 = false := by rw [hs]
+        have hbrs' : brs' = brs.map (fun b => filled b [x]) := by rw [← f2 hfalse, hs]
+        have hx := f1.mp hfalse
+        obtain ⟨i1, i2⟩ := ih brs'
+        simp only
+        constructor
+        · rw [i1, hbrs']
+          simp only [List.mem_map, forall_exists_index, and_imp, forall_apply_eq_imp_iff₂]
+          constructor
+          · intro h b hb
+            exact (accepts_cons b x xs).mpr ⟨hx b hb, h b hb⟩
+          · intro h b hb
+            exact ((accepts_cons b x xs).mp (h b hb)).2
+        · intro h
+          rw [i2 h, hbrs', List.map_map]
+          apply List.map_congr_left
+          intro b hb
+          simp only [Function.comp]
+          rw [filled_cons b x xs (hx b hb)]
+
+theorem outputs_fillBuf (i : Nat) (ops : Ops σ α) :
+    ∀ (s : σ) (xs : List α), outputs (fillBuf i ops s xs).1 = [] := by
+  intro s xs
+  induction xs generalizing s with
+  | nil => rfl
+  | cons x xs ih =>
+    obtain ⟨s', st, hf⟩ : ∃ s' st, ops.fill s x = (s', st) := ⟨_, _, rfl⟩
+    cases st with
+    | true => rw [fillBuf_cons_stop i ops s s' x _ hf]; rfl
+    | false => rw [fillBuf_cons_ok i ops s s' x _ hf]; simpa [outputs] using ih s'
+
+/-- all branches fill/compute and accepting: over the blocks they are only filled -/
+theorem passes_fc (bl : List (List α)) :
+    ∀ (act : List (Branch σ α)), (∀ b ∈ act, b.kind = .fillCompute) → (∀ b ∈ act, Accepts b bl.flatten) →
+      outputs (passes bl act).1 = [] ∧ (passes bl act).2 = act.map (fun b => filled b bl.flatten) := by
+  induction bl with
+  | nil => intro act _ _; simp [passes, outputs, filled_nil]
+  | cons blk rest ih =>
+    intro act hk hacc
+    have hacc' : ∀ b ∈ act, Accepts b blk ∧ Accepts (filled b blk) rest.flatten :=
+      fun b hb => (accepts_append b blk rest.flatten).mp (by simpa using hacc b hb)
+    have h1 : (foldB (stepBranch blk) act).1 = act.flatMap (fun b => (fillBuf b.id b.ops b.st blk).1) := by
+      rw [foldB_fst]
+      apply flatMap_congr'
+      intro b hb
+      have := (hacc' b hb).1
+      unfold Accepts at this
+      simp [stepBranch, hk b hb, this]
+    have h2 : (foldB (stepBranch blk) act).2 = act.map (fun b => filled b blk) := by
+      rw [foldB_snd]
+      apply filterMap_eq_map'
+      intro b hb
+      have := (hacc' b hb).1
+      unfold Accepts at this
+      simp [stepBranch, hk b hb, this, filled]
+    obtain ⟨i1, i2⟩ := ih (act.map (fun b => filled b blk))
+      (by intro b hb; simp only [List.mem_map] at hb; obtain ⟨c, hc, rfl⟩ := hb; exact hk c hc)
+      (by intro b hb; simp only [List.mem_map] at hb; obtain ⟨c, hc, rfl⟩ := hb; exact (hacc' c hc).2)
+    simp only [passes, h1, h2, outputs_append, i1, i2, List.append_nil, List.map_map, List.flatten_cons]
+    constructor
+    · rw [outputs_flatMap]
+      simp [outputs_fillBuf]
+    · apply List.map_congr_left
+      intro b hb
+      simp only [Function.comp]
+      rw [filled_append b blk rest.flatten (hacc' b hb).1]
+
+/-- ALL FILL/COMPUTE: used through its common methods — `fill` every value of the flow (no
+branch signals `LenaStopFill`), then `compute()` — the Split yields what `run(flow)` yields, for
+every `bufsize`: *"fill fills all its subsequences, and compute yields values from all sequences
+in turn"*, with the same meaning as `run`. -/
+theorem common_type_fill_compute (s : Split σ α) (hv : s.Valid)
+    (hall : ∀ b ∈ s.branches, b.kind = .fillCompute) (flow : List α)
+    (hok : (splitFillAll s.branches flow).2 = false) :
+    outputs (s.runTrace flow) = (splitCompute (splitFillAll s.branches flow).1).1 := by
+  obtain ⟨f1, f2⟩ := splitFillAll_iff flow s.branches
+  rw [loop_refines_spec s hv, f2 hok, splitCompute_fst]
+  unfold Split.runSpec
+  have hacc : ∀ b ∈ s.branches, Accepts b (blocks s.bufsize flow).flatten := by
+    rw [blocks_flatten s.bufsize hv]; exact f1.mp hok
+  obtain ⟨p1, p2⟩ := passes_fc (blocks s.bufsize flow) s.branches hall hacc
+  rw [outputs_append, p1, p2, blocks_flatten s.bufsize hv, List.nil_append, finalPass_eq_flatMap]
+  · rw [outputs_flatMap]
+    apply flatMap_congr'
+    intro b hb
+    simp only [List.mem_map] at hb
+    obtain ⟨c, hc, rfl⟩ := hb
+    simp [finalOne, filled, hall c hc, outputs, outputs_outs]
+  · right
+    intro b hb
+    simp only [List.mem_map] at hb
+    obtain ⟨c, hc, rfl⟩ := hb
+    simp [filled, hall c hc]
+
 end Lena.C03
